@@ -107,6 +107,9 @@ PROPS["C09"] = dict(PROPS["C07"], lean_modules=["ShmVerif.Tie.C07", "ShmVerif.Pr
 PROPS["C10"] = dict(PROPS["C07"], lean_modules=["ShmVerif.Tie.C07", "ShmVerif.Props.C10"], design_ref="DESIGN.md §5 C10",
     claim="PARTIAL proof (synchronous mode). Proved on `Mux`: c10_close_final (a local Close makes the stream closed, empty and inactive), c10_flush_after_close (later flushes fail with the closed-stream outcome and touch no channel), c10_notifies_exactly_once (the close notification is issued exactly when the stream was still open; repeated Close / Close after the peer's close announce nothing more), c10_peer_half_closes (delivery half-closes the peer's stream, which then cannot send), c10_monotone_*. On the real sessions the harness checks error classes after Close, active-stream counts and end-of-stream positions. Callback mode (Close inside OnData, callback counts) is C20's harness; not proved here.")
 
+PROPS["C15"] = dict(PROPS["C07"], lean_modules=["ShmVerif.Tie.C15", "ShmVerif.Props.C15"], design_ref="DESIGN.md §5 C15",
+    claim="PARTIAL proof on the pool model (streamPool.getOrOpenStream / putOrCloseStream + Stream.reset + ReleaseReadAndReuse over the two-session protocol model): c15_ring_bounded, c15_get_takes_prefix (bounded FIFO), c15_put_pooled_is_clean (a stream is kept only if open, not in fall-back, nothing unread, nothing pending), c15_put_else_closes, c15_get_from_ring_open. The model is compared in lock step with the real streamPool on real in-package sessions; monitors on the real code: handed-out stream open / session live / no unread bytes / not handed to two callers, GetActiveStreamCount = streams not closed locally (held + pooled) after every pool operation. A genuine defect found by this check (pooled streams discarded without Close, F10) was repaired by a fix: commit. Concurrent GetStream/PutBack is not scheduled here (pool functions are mutex-protected).",
+    rule="cases = (slice configuration, queue capacity, pool capacity 0-3, 8-47 operations: GetStream, PutBack of a held stream, request write+flush, delivery of events to either end, peer replies, partial reads, peer-side Close of a (possibly pooled) stream, buffer exhaustion -> fall-back); non-trivial = pool reuse, pooled stream discarded, PutBack closing the stream for each reason (fall-back, not open, unread, pending, pool full); distinct by hash of op lines")
 PROPS["C02"] = dict(PROPS["C01"], lean_modules=["ShmVerif.Tie.C01", "ShmVerif.Props.C02"],
     claim="PARTIAL proof. Proved in Lean: c02_conservation_seq and c02_quiescent_full_seq (every sequential-atomic history: free count = chain length, free count + owned = capacity; when nothing is owned size = cap and the walk from head visits every slot exactly once and ends at tail), c02_failed_alloc_consumes_nothing (a failing pop restores every shared word), c02_aba_witness (kernel-checked: after the ABA schedule and full recycling size = cap = 4 but the walk visits 2 slots - known finding F1, replayed on the real code every run). Conservation for ABA-free concurrent interleavings is not proved; covered by scheduler correspondence + quiescence monitors (size, chain walk, count never exceeds capacity).",
     design_ref="DESIGN.md §5 C02")
